@@ -559,9 +559,7 @@ def dims_of(loc, how, order):
     d = []
     if loc != "base":
         d.append("location")
-    if how == "dslash":
-        d.append("spelling:dslash")
-    elif how != "abs":
+    if how != "abs":
         d.append("spelling")
     if order != "os":
         d.append("order")
@@ -595,14 +593,14 @@ def worlds(tier):
             add(script, "deep", ni)
     add("many", "siblings", 1)
     add("tz", "names", 0)
-    add("renamedup", "flat", 0)  # kept apart: see the report on the current tree
+    add("renamedup", "flat", 0)  # the recorded previous path once depended on the iteration order of a set of absolute paths
     if thorough:
         add("seal", "big", 0)
     return out
 
 
 LOCS = ["ascmhl", "dsstore", "deepascmhl", "uni", "xml", "long", "inhistory", "lnkanc", "lnkroot", "other", "rootascmhl", "neutral2"]
-SPELLS = ["slash", "slashdot", "rel", "reldot", "relslash", "dot", "dotslash", "updown", "grand", "absdots"]
+SPELLS = ["slash", "slashdot", "rel", "reldot", "relslash", "dot", "dotslash", "updown", "grand", "absdots", "dslash"]
 ORDERS = ["rev", "rot", "half", "oddeven", "shuf1", "sorted"]
 
 
@@ -640,7 +638,7 @@ def variants(world, tier, idx):
         if script in ("many", "latenest") or tree == "siblings":  # where the order of enumeration has most to act on
             chosen += [("base", "abs", "rev"), ("ascmhl", "rel", "shuf1")]
     if script == "reseal" and tree == "deep":
-        chosen.append(("base", "dslash", "os"))  # doubled trailing slash: kept apart, see the report on the current tree
+        chosen.append(("base", "dslash", "os"))  # doubled trailing slash (once made every recorded path look missing on the second run)
     seen, out = set(), []
     for v in chosen:
         if v not in seen:
@@ -720,7 +718,7 @@ def main():
                 desc = f"root at {os.path.relpath(c.access, c.vt)!r} given as {c.arg.replace(c.vt + os.sep, '')!r}" + (
                     f" from cwd {os.path.relpath(c.cwd, c.vt)!r}" if c.cwd else ""
                 ) + f", enumeration order {order}"
-                compare(run, cid, dims_of(loc, how, order) + (":dr-duplicates" if script == "renamedup" else ""), ref_res, got, desc, dict(inp0, location=loc, spelling=how, order=order, arg=c.arg, cwd=c.cwd))
+                compare(run, cid, dims_of(loc, how, order), ref_res, got, desc, dict(inp0, location=loc, spelling=how, order=order, arg=c.arg, cwd=c.cwd))
             # ---- copies of the finished reference tree
             want_copies = [(j, v) for j, v in enumerate(cs) if run.want(f"{wid}/copy/{v[0]}/{v[1]}/{v[2]}")]
             if want_copies:
@@ -748,7 +746,7 @@ def main():
                     if dh != origin_dh:
                         run.violation(cid, f"{where}: verify -dh exits {dh}, at the origin it exits {origin_dh}", "copy/verify-dh-differs", inp=inp)
                     got = (ex[2 + len(nroots) :], normalise(files, c.name))
-                    compare(run, cid, "copy", cont_res, got, where + ", one more generation", inp)
+                    compare(run, cid, "copy", cont_res, got, where + ": one more create, then a recorded file removed and verify", inp)
             shutil.rmtree(wtmp, ignore_errors=True)
     finally:
         freezer.stop()
